@@ -129,6 +129,11 @@ Definition w_alias_space : c04case := CAlias [97%N; 32%N; 98%N] (Build_emodel [8
 Lemma w_alias_space_holds : spec_C04 w_alias_space (run_C04 w_alias_space) = true /\ known_C04 w_alias_space = [].
 Proof. vm_compute. split; reflexivity. Qed.
 
+(* directed-json-default-old-row : {'default': '{\'d\':[1]}', 'returned': '{\'d\':[1]}'} *)
+Definition w_K6_json_default : c04case := CJsonDefault [123%N; 34%N; 100%N; 34%N; 58%N; 91%N; 49%N; 93%N; 125%N] (JObject [([100%N], (JArray [(JInt 1)]))]).
+Lemma w_K6_json_default_holds : spec_C04 w_K6_json_default (run_C04 w_K6_json_default) = true /\ known_C04 w_K6_json_default = [].
+Proof. vm_compute. split; reflexivity. Qed.
+
 (* search : {'fts5': '', 'term': 'hello'} *)
 Definition w_search_plain : c04case := CSearch [104%N; 101%N; 108%N; 108%N; 111%N] true.
 Lemma w_search_plain_holds : spec_C04 w_search_plain (run_C04 w_search_plain) = true /\ known_C04 w_search_plain = [].
@@ -137,11 +142,6 @@ Proof. vm_compute. split; reflexivity. Qed.
 (* search : {'fts5': 'read: unterminated string', 'term': 'hello\''} *)
 Definition w_K5_search_quote : c04case := CSearch [104%N; 101%N; 108%N; 108%N; 111%N; 34%N] false.
 Lemma w_K5_search_quote_refuted : spec_C04 w_K5_search_quote (run_C04 w_K5_search_quote) = false /\ known_C04 w_K5_search_quote = [5].
-Proof. vm_compute. split; reflexivity. Qed.
-
-(* directed-json-default-old-row : {'default': '{\'d\':[1]}', 'returned': '\'{\\\'d\\\':[1]}\''} *)
-Definition w_K6_json_default : c04case := CJsonDefault [123%N; 34%N; 100%N; 34%N; 58%N; 91%N; 49%N; 93%N; 125%N] (JObject [([100%N], (JArray [(JInt 1)]))]).
-Lemma w_K6_json_default_refuted : spec_C04 w_K6_json_default (run_C04 w_K6_json_default) = false /\ known_C04 w_K6_json_default = [6].
 Proof. vm_compute. split; reflexivity. Qed.
 
 (* search : {'fts5': 'read: no such column: name', 'term': 'name:hello'} *)
